@@ -10,7 +10,8 @@ ASSUMPTIONS = [
     'which OS thread a worker is, CPU binding (C15) and std::thread itself are outside the model: std_thread_scheduler is observed only (fresh OS thread, no pika task id)',
     'PU availability (states_[w]) is constant during a run: suspending/resuming processing units is C19; select_active_pu with no PU available is approximated',
     'curr_queue_ wrap at 2^64 and the int16 cast of worker numbers > 32767 are not modelled (hypothesis W <= 32767 in static_ok)',
-    'shared-priority scheduler: pool membership only (modelled as a stealing priority scheduler); bulk: pool membership and chunk-task monitors only, chunk stealing between index queues is C11',
+    'shared-priority scheduler: pool membership only (modelled as a stealing priority scheduler)',
+    'bulk: which task_function (queue number k) calls f(i) is observed through hook 1103 and left to the oracle in the model (the index-queue stealing is C11); the bulk set_value is assumed to run in a pika task (asserted by the code), and the exact-worker statements assume the hypotheses of static_hint_pinned',
     'round-robin placement of unhinted submissions: the acceptor aligns the counter with unobserved traffic; exact counter values are not compared',
     'SC interleaving at the granularity of one queue operation / one try_lock; queue discipline abstract',
 ]
@@ -166,6 +167,95 @@ def monitors(pools, tasks, recs, mode):
     return hits, nplace
 
 
+def parse_bulk(out):
+    pools, ops, svs, fs = {}, {}, {}, []
+    ins, outs, done, other = [], [], None, []
+    def kv(parts):
+        return dict(x.split('=', 1) for x in parts if '=' in x)
+    for ln in out.split('\n'):
+        p = ln.split(' ')
+        if ln.startswith('POOL '):
+            pools[int(p[2])] = {'name': p[3], 'policy': p[4], 'W': int(p[5]), 'H': int(p[6]), 'prio': int(p[7]),
+                                'steal': int(p[8]), 'elastic': int(p[9]), 'offset': int(p[10])}
+        elif ln.startswith('OP '):
+            d = kv(p[3:])
+            ops[int(p[2])] = d
+        elif ln.startswith('SV '):
+            svs[int(p[2])] = kv(p[3:])
+        elif ln.startswith('F '):
+            d = kv(p[3:])
+            d['uid'] = int(p[2])
+            fs.append(d)
+        elif ln.startswith('IN '):
+            ins.append(ln)
+        elif ln.startswith('OUT '):
+            outs.append(ln)
+        elif ln.startswith('DONE '):
+            done = ln
+        elif ln.strip() and '[pika]' not in ln:
+            other.append(ln)
+    return pools, ops, svs, fs, ins, outs, done, other
+
+
+def bulk_monitors(pools, ops, svs, fs):
+    """C10 for bulk, evaluated on the observations only (no model): returns [(signature, detail)], #placements"""
+    hits = []
+    byuid = {}
+    for f in fs:
+        byuid.setdefault(f['uid'], []).append(f)
+    for uid, o in ops.items():
+        pool = pools[int(o['pool'])]
+        W = pool['W']
+        n = int(o['n'])
+        rs = byuid.get(uid, [])
+        sv = svs.get(uid)
+        if o['completed'] != '1':
+            hits.append(('C10:bulk:not_completed', 'bulk op %d (n=%d pred=%s) completed %s times' % (uid, n, o['pred'], o['completed'])))
+        if sorted(int(r['i']) for r in rs) != list(range(n)):
+            hits.append(('C10:bulk:index_set', 'bulk op %d: f called for %d indices, shape %d' % (uid, len(rs), n)))
+        if sv is None:
+            if rs:
+                hits.append(('C10:bulk:no_set_value_record', 'bulk op %d: f ran but hook 1101 was not seen' % uid))
+            continue
+        if sv['pt'] == '0' or int(sv['pool']) != int(o['pool']):
+            hits.append(('C10:bulk:set_value_off_pool', 'bulk op %d: set_value ran on pool %s task %s, scheduler pool %s' % (uid, sv['pool'], sv['pt'], o['pool'])))
+        static = (not pool['steal']) and (not pool['elastic']) and not (pool['prio'] and o['prio'] == 'l')
+        task_k = {}
+        for r in rs:
+            k, lw = int(r['k']), int(r['lw'])
+            what = 'op %d (pool %s W=%d policy %s prio %s hint %s n=%d pred %s) f(%s) by task_function %d' % (
+                uid, o['pool'], W, pool['policy'], o['prio'], o['hint'], n, o['pred'], r['i'], k)
+            if r['pt'] == '0':
+                hits.append(('C10:bulk:outside_task', what + ' ran outside a pika task'))
+                continue
+            if int(r['pool']) != int(o['pool']):
+                hits.append(('C10:bulk:wrong_pool', what + ' ran on pool %s' % r['pool']))
+            if (o['subpt'] == '0' and r['os'] == o['subos']) or (o['subpt'] != '0' and r['pt'] == o['subpt']):
+                hits.append(('C10:bulk:inline', what + ' ran inside the context that called start'))
+            if k < 0:
+                hits.append(('C10:bulk:no_chunk_record', what + ': hook 1103 not seen before f'))
+                continue
+            if task_k.setdefault(r['pt'], k) != k:
+                hits.append(('C10:bulk:task_two_queues', what + ': the same task also ran task_function %d' % task_k[r['pt']]))
+            local = r['pt'] == sv['pt']
+            if local != (k == int(sv['lw'])):
+                hits.append(('C10:bulk:local_part_mismatch', what + ': local worker of set_value %s, same task as set_value: %s' % (sv['lw'], local)))
+            if not (0 <= k < W):
+                hits.append(('C10:bulk:queue_out_of_range', what))
+            if static:
+                if local:
+                    exp = int(sv['lw'])
+                elif o['hint'] == 'x':
+                    exp = k
+                else:
+                    u = int(o['hint']) % TWO64
+                    exp = None if u == TWO64 - 1 else u % W
+                if exp is not None and lw != exp:
+                    hits.append(('C10:bulk:static_wrong_worker:' + ('local' if local else 'spawned'),
+                                 what + ' ran on worker %d of a static pool, expected worker %d' % (lw, exp)))
+    return hits, len(fs)
+
+
 def run(ctx):
     r = Result()
     r.rule = ('PROC/TRACE: each case starts the real runtime with a default pool and 1-2 resource-partitioner pools (policies and '
@@ -173,10 +263,14 @@ def run(ctx):
               'std_thread jobs whose callables yield, boost-yield, suspend (semaphore, mutex) and spawn children; every callable '
               'records pool, local/global worker, task id, OS thread id in every phase; monitors check inline/pool/static-hint '
               'placement; the extracted model replays the trace as an acceptor; non-trivial = a case with a static pool, hinted '
-              'tasks and at least one suspension or yield; plus four scenarios (E6 elastic, yield_to, boost with H<W, shared-priority with an out-of-range hint)')
+              'tasks and at least one suspension or yield; plus four scenarios (E6 elastic, yield_to, boost with H<W, shared-priority with an out-of-range hint); '
+              'bulk cases (harness/c10_bulk.cpp): bulk on pool A (two thirds static policies, W 1-5) after schedule/then/transfer_just/continues_on/bulk predecessors, '
+              'hints and priorities, started from OS threads and tasks; every f(i) records the calling task_function (hook 1103), pool and worker; monitors + the extracted '
+              'acceptor bulk_allowed; non-trivial = a static bulk pool with at least one call from a spawned worker task')
     ctx.build_pika()
     drv = ctx.build_model('C10', 'ExtractC10.v', 'drv_c10.ml')
     h = ctx.build_harness('c10_place', 'c10_place.cpp')
+    hb = ctx.build_harness('c10_bulk', 'c10_bulk.cpp')
     rng = random.Random(ctx.seed)
     if ctx.tier == 'quick':
         ncases, njobs = 48, 24
@@ -227,6 +321,45 @@ def run(ctx):
             inmap[(p[1], p[2])] = {'args': args[1:], 'in': x[:3000]}
         if ci < 2:
             r.sample({'args': args[1:], 'pools': pools, 'ntasks': len(tasks), 'nrecords': len(recs), 'out': (outs[0][:400] if outs else '')})
+    # ---- bulk placement (Model/BulkPlacement.v): monitors + the extracted acceptor bulk_allowed
+    nb, nbops = (14, 24) if ctx.tier == 'quick' else (160, 40)
+    for ci in range(nb):
+        args = [hb, str(base), str(ci), str(nbops)]
+        rc, out = sh(args, timeout=120)
+        pools, ops, svs, fs, ins, outs, done, other = parse_bulk(out)
+        replay = {'harness': 'c10_bulk', 'args': args[1:]}
+        if 'TIEFAIL' in out:
+            r.hits.append(Hit('tie', 'C10:harness', 'bulk harness could not set up the pools: %s' % out[-400:], replay))
+            continue
+        if rc != 0 or done is None or 'completed=1' not in done:
+            r.hits.append(Hit('monitor', 'C10:bulk:hang_or_crash',
+                              'runtime hung or crashed in bulk case %d: rc=%d %s %s' % (ci, rc, done, ' | '.join(other)[-400:]), replay))
+        mh, nplace = bulk_monitors(pools, ops, svs, fs)
+        r.evaluations += nplace
+        seen = set()
+        for sig, detail in mh:
+            if sig in seen:
+                continue
+            seen.add(sig)
+            rp = dict(replay)
+            rp['pools'] = pools
+            r.hits.append(Hit('monitor', sig, 'bulk case %d: %s' % (ci, detail), rp))
+        r.count('mode=bulk')
+        if len(pools) > 1:
+            r.count('bulkpolicy=' + pools[1]['policy'])
+            r.count('bulkW=%d' % pools[1]['W'])
+        for o in ops.values():
+            r.count('bulkpred=' + o['pred'])
+            r.count('bulkhint=' + ('none' if o['hint'] == 'x' else 'given'))
+        if len(pools) > 1 and not pools[1]['steal'] and any(int(f['k']) != int(svs[f['uid']]['lw']) for f in fs if f['uid'] in svs):
+            r.nontrivial('bulk case %d %s' % (base, ci))
+        all_in += ins
+        all_out += outs
+        for x in ins:
+            p = x.split(' ')
+            inmap[(p[1], p[2])] = {'args': args[1:], 'in': x[:3000]}
+        if ci < 1:
+            r.sample({'args': args[1:], 'pools': pools, 'nops': len(ops), 'ncalls': len(fs), 'out': (outs[0][:400] if outs else '')})
     rc2, mout = sh([drv], input='\n'.join(all_in) + '\n', timeout=1800)
     mouts = [x for x in mout.split('\n') if x.startswith('OUT ')]
     notes = [x for x in mout.split('\n') if x.startswith('NOTE ')]
@@ -236,6 +369,12 @@ def run(ctx):
     r.traces += ncmp
     for (k, a, b) in diffs[:20]:
         why = [x for x in notes if x.split(' ')[2] == k[1]][:3]
+        if k[0] == 'BULK':
+            r.hits.append(Hit('corr', 'C10:bulk:correspondence',
+                              'observed (task_function, pool, worker) of a bulk call is not admitted by the model (op %s): impl [%s] model [%s]'
+                              % (k[1], a[:300], b[:400]),
+                              {'harness': 'c10_bulk', 'case': inmap.get(k), 'impl': a, 'model': b}))
+            continue
         r.hits.append(Hit('corr', 'C10:placement:correspondence',
                           'observed placement is not one the model admits (case %s): %s; impl [%s] model [%s]'
                           % (k[1], ' / '.join(why), a[:300], b[:300]),
